@@ -297,7 +297,17 @@ impl<'tcx> Cx<'tcx> {
                 }
                 let prov = alloc.provenance().ptrs().iter().find(|(o, _)| o.bytes() as usize == off).map(|(_, p)| *p)?;
                 match tcx.global_alloc(prov.alloc_id()) {
-                    rustc_middle::mir::interpret::GlobalAlloc::Function { instance, .. } => Some(format!("{{\"fn\":{}}}", esc(&tcx.def_path_str(instance.def_id())))),
+                    rustc_middle::mir::interpret::GlobalAlloc::Function { instance, .. } => {
+                        // a closure coerced to `fn` goes through a call_once shim whose Self type is the closure: name it
+                        let clo = instance.args.types().find_map(|t| match t.kind() {
+                            TyKind::Closure(d, _) => Some(tcx.def_path_str(*d)),
+                            _ => None,
+                        });
+                        match clo {
+                            Some(c) => Some(format!("{{\"fn\":{},\"closure\":{}}}", esc(&tcx.def_path_str(instance.def_id())), esc(&c))),
+                            None => Some(format!("{{\"fn\":{}}}", esc(&tcx.def_path_str(instance.def_id())))),
+                        }
+                    }
                     _ => None,
                 }
             }
